@@ -25,6 +25,12 @@ func (a pt) String() string { return "(" + a[0].String() + ", " + a[1].String() 
 
 // onSegment reports whether c = a + t·(b − a) with a constant 0 < t < 1, on both coordinates.
 func onSegment(a, b, c pt) bool {
+	_, ok := segmentFraction(a, b, c)
+	return ok
+}
+
+// segmentFraction: c = a + t·(b − a) with a constant 0 < t < 1; returns t.
+func segmentFraction(a, b, c pt) (*big.Rat, bool) {
 	var t *big.Rat
 	eps := big.NewRat(1, 1000000)
 	for i := 0; i < 2; i++ {
@@ -32,7 +38,7 @@ func onSegment(a, b, c pt) bool {
 		d := c[i].Add(a[i].Neg())
 		if len(e.T) == 0 {
 			if len(d.T) != 0 {
-				return false
+				return nil, false
 			}
 			continue
 		}
@@ -40,17 +46,17 @@ func onSegment(a, b, c pt) bool {
 			for mono, ce := range e.T {
 				cd, ok := d.T[mono]
 				if !ok {
-					return false
+					return nil, false
 				}
 				t = new(big.Rat).Quo(cd, ce)
 				break
 			}
 		}
 		if !d.Near(e.Mul(core.PolyConst(t)), eps) {
-			return false
+			return nil, false
 		}
 	}
-	return t != nil && t.Sign() > 0 && t.Cmp(big.NewRat(1, 1)) < 0
+	return t, t != nil && t.Sign() > 0 && t.Cmp(big.NewRat(1, 1)) < 0
 }
 
 // shapeSeg is one expected segment of a closed outline: to the next on-curve point, straight or around a corner.
@@ -157,6 +163,14 @@ func matchOutline(ops []canvasOp, pts []pt, corners []*pt) string {
 			if !onSegment(end, *corner, cp2) {
 				return fmt.Sprintf("second control point %s of the arc %s – %s is not on the tangent towards the corner %s", cp2, pts[idx], end, *corner)
 			}
+			// a quarter of an ellipse: both control points at the same fraction of the way to the corner
+			t1, _ := segmentFraction(pts[idx], *corner, cp1)
+			t2, _ := segmentFraction(end, *corner, cp2)
+			if d := new(big.Rat).Sub(t1, t2); d.Abs(d).Cmp(big.NewRat(1, 100000)) > 0 {
+				f1, _ := t1.Float64()
+				f2, _ := t2.Float64()
+				return fmt.Sprintf("the control points of the arc %s – %s are at %.4f and %.4f of the way to the corner: a quarter ellipse has them at the same fraction (0.5523)", pts[idx], end, f1, f2)
+			}
 		}
 		idx = next
 		done++
@@ -170,7 +184,7 @@ func matchOutline(ops []canvasOp, pts []pt, corners []*pt) string {
 // c18Shapes folds the draw methods of rect and ellipse/circle with a recording canvas.
 func c18Shapes(c *core.Check) {
 	p := c.Prog
-	r := c.Rule("R6", "rect and ellipse/circle outlines: every on-curve point of the drawn outline is the one SVG defines (quadrant points of the ellipse; the eight points x+rx, x+width−rx … of the rounded rectangle with rx, ry clamped to half the size; Rectangle(x, y, width, height) without radii), edges are straight, and each quarter arc is a cubic whose control points lie on the tangents between its end points and the outer corner", 6)
+	r := c.Rule("R6", "rect and ellipse/circle outlines: every on-curve point of the drawn outline is the one SVG defines (quadrant points of the ellipse; the eight points x+rx, x+width−rx … of the rounded rectangle with rx, ry clamped to half the size; Rectangle(x, y, width, height) without radii), edges are straight, and each quarter arc is a cubic whose control points lie on the tangents between its end points and the outer corner, both at the same fraction of the way", 6)
 	sym := core.SymP
 	run := func(fn *ssa.Function, recvFields map[string]core.AV, attrFields map[string]core.AV, cmp func(op token.Token, x, y core.AV) (bool, bool)) ([]canvasOp, error) {
 		var ops []canvasOp
